@@ -63,7 +63,7 @@ type objKey struct{ kind, ns, name string }
 type symObj struct {
 	metav1.TypeMeta   `json:",inline"`
 	metav1.ObjectMeta `json:"metadata,omitempty"`
-	Data              string `json:"data,omitempty"`
+	Data              string `json:"-"`
 }
 
 func (o *symObj) DeepCopyObject() runtime.Object {
